@@ -88,7 +88,7 @@ pub fn run_flood_auth(run: &mut Run, prof: u8, count: u32) {
 }
 
 pub fn special(run: &mut Run, rng: &mut Rng, thorough: bool) {
-    for prof in 0..4u8 { run_flood(run, prof, 2000, false); run_flood(run, prof, 2000, true); run_flood_auth(run, prof, 2000); }
+    for prof in 0..4u8 { run_flood(run, prof, 2000, false); run_flood(run, prof, 2000, true); run_flood_auth(run, prof, 20_000); }
     for i in 0..4u8 {
         let mut p = pair(i);
         for rtcp in [false, true] { run_one(run, &mut p, rtcp, &[], false); for a in (0..=255u8).step_by(3) { run_one(run, &mut p, rtcp, &[a], false); } }
@@ -105,7 +105,7 @@ pub fn special(run: &mut Run, rng: &mut Rng, thorough: bool) {
                 for m in super::mutations(&out, rng, 4) { run_one(run, &mut p, false, &m, true); }
             }
             // genuine SRTCP
-            let mut c = marshal_rtcp_packets(&[super::rtp::gen_rtcp_packet(rng)]).unwrap_or_default();
+            let mut c = { let p = super::rtp::gen_rtcp_packet(rng); crate::catch(move || marshal_rtcp_packets(&[p]).unwrap_or_default()).unwrap_or_default() };
             // pin the sender SSRC to the same small set as the RTP side: the per-call oracle is about one packet, the
             // growth of the context table with new authenticated SSRCs is measured separately (`srtpfloodauth`)
             if c.len() >= 8 { let ss = 0x1000u32 + rng.below(3) as u32; c[4..8].copy_from_slice(&ss.to_be_bytes()); }
